@@ -6,6 +6,7 @@
 -/
 import DecModel.Judge
 import DecModel.HkGen
+import DecGen.Api
 
 namespace Dec
 
@@ -51,10 +52,54 @@ def judgeHk (name : String) (o : Obs) : String :=
             if mw == gw && mf == gf then "ok hk-translated+model"
             else "corr helper-model predicts " ++ showWords mw ++ " flags " ++ String.ofList (Nat.toDigits 16 mf)
 
+/-! ### public methods whose routine is translated (`DecGen/Api.lean`)
+
+Every observation of such a method is recomputed with the Lean translation of the routine's source and compared
+bit for bit (results and status word).  This is the translator's own correspondence check on the API's input
+space; it says nothing about right or wrong (the specification judge does that), only that `DecGen/Code.lean`
+computes what the compiled code computes. -/
+
+open Dec.Gen.Api in
+def toAVal : Val → Option AVal
+  | .d b => some (.d ⟨UInt64.ofNat (b % 2 ^ 64), UInt64.ofNat (b / 2 ^ 64)⟩)
+  | .i v => some (.i v)
+  | _ => none
+
+open Dec.Gen.Api in
+def ofAVal : AVal → Val
+  | .d r => .d (r.w0.toNat + 2 ^ 64 * r.w1.toNat)
+  | .i v => .i v
+  | .b v => .b v
+  | .c cls => .cls (match cls with
+      | .SignalingNaN => 0 | .QuietNaN => 1 | .NegativeInfinity => 2 | .NegativeNormal => 3 | .NegativeSubnormal => 4
+      | .NegativeZero => 5 | .PositiveZero => 6 | .PositiveSubnormal => 7 | .PositiveNormal => 8 | .PositiveInfinity => 9)
+
+def judgeApi (modeTok : String) (o : Obs) : String :=
+  let mode := if modeTok == "-" || modeTok == "N" then Dec.Gen.Api.defaultMode else HkGen.rmode o.mode
+  let args := o.args.foldr (fun a acc => match toAVal a, acc with
+    | some v, some l => some (v :: l)
+    | _, _ => none) (some [])
+  match args with
+  | none => "skip"
+  | some as =>
+    match Dec.Gen.Api.run o.op mode (UInt32.ofNat o.flagsIn) as with
+    | none => "skip"
+    | some (.error why) =>
+      match o.out with
+      | none => "ok api-panic-agrees"
+      | some _ => "corr translated-code predicts a panic (" ++ why ++ "), the compiled routine returned"
+    | some (.ok (rs, fl)) =>
+      match o.out with
+      | none => "corr translated-code returns, the compiled routine panicked"
+      | some (rv, rf) =>
+        if rv == rs.map ofAVal && rf == fl.toNat then "ok api-translated"
+        else "corr translated-code predicts " ++ " ".intercalate ((rs.map ofAVal).map showVal) ++ " " ++ String.ofList (Nat.toDigits 16 fl.toNat)
+
 def judgeHkLine (line : String) : String :=
   match parseObs line with
   | none => "bad unparsable"
   | some o =>
-    if o.op.startsWith "hk_" then judgeHk (o.op.drop 3).toString o else "bad not a helper observation"
+    if o.op.startsWith "hk_" then judgeHk (o.op.drop 3).toString o
+    else judgeApi (((line.trimAscii.toString.splitOn " ").filter (· ≠ "")).getD 1 "-") o
 
 end Dec
